@@ -311,6 +311,7 @@ func (node *Node) clone(tree *MutableTree) (*Node, error) {
 		if err != nil {
 			return nil, err
 		}
+		verifPoint("clone:children-fetched")
 		node.leftNode = nil
 		node.rightNode = nil
 	}
